@@ -19,6 +19,7 @@ CONSTANTS
   SynSet = {%(syn)s}
   ScopeSet = {%(scopes)s}
   TypeSet = {%(types)s}
+  FeatSet = {%(feats)s}
   MaxBroken = 1
 INVARIANTS SpecSane Export
 CHECK_DEADLOCK FALSE
@@ -27,15 +28,24 @@ CHECK_DEADLOCK FALSE
 ALLSYN = '"proto2", "proto3", "editions"'
 ALLSCOPES = '"file", "M", "N"'
 ALLTYPES = '"int32", "string", "bytes", "enumE", "enumNE", "message", "group"'
+ALLFEATS = '"field_presence", "enum_type", "repeated_field_encoding", "utf8_validation", "message_encoding", "json_format"'
+# presence x enum-openness family: every combination of up to 3 of {field_presence at file / field level, enum_type at file / enum
+# level, [default], non-zero first enum value} on every enum-typed field shape (singular, repeated, map value, oneof member,
+# extension).  Covers "implicit-presence field x closed enum (first value 0 / 1)" with the explicit-presence and repeated controls:
+# the compiler may reject these (flagged `breaks`), but whatever it accepts protodesc.NewFile must accept too.
+PRESENUM = dict(name="presenum", maxfields=1, maxweight=3, minfields=1, minweight=2, syn='"editions"', scopes='"M"', sim=None,
+                types='"enumE", "enumNE"', feats='"field_presence", "enum_type"')
 
 # name, maxfields, maxweight, minfields, minweight, syntaxes, scopes, simulate(num traces) , depth, coverage
 RUNS = {
     "quick": [
         dict(name="exh1", maxfields=1, maxweight=1, minfields=1, minweight=0, syn=ALLSYN, scopes=ALLSCOPES, sim=None),
+        PRESENUM,
         dict(name="sim", maxfields=3, maxweight=9, minfields=2, minweight=2, syn=ALLSYN, scopes=ALLSCOPES, sim=10, depth=12),
     ],
     "thorough": [
         dict(name="exh1", maxfields=1, maxweight=1, minfields=1, minweight=0, syn=ALLSYN, scopes=ALLSCOPES, sim=None, coverage=True),
+        PRESENUM,
         dict(name="exh2", maxfields=1, maxweight=2, minfields=1, minweight=2, syn=ALLSYN, scopes=ALLSCOPES, sim=None),
         dict(name="exh3", maxfields=1, maxweight=3, minfields=1, minweight=3, syn='"editions"', scopes='"N"', sim=None,
              types='"string", "enumNE", "message"'),   # one type per feature family: utf8 / enum + packing / encoding + presence
@@ -185,7 +195,7 @@ def run(pid, tier, replay=None):
         os.makedirs(rwd, exist_ok=True)
         cfg = "MCFeatures_%s.cfg" % r["name"]
         with open(os.path.join(rwd, cfg), "w") as fh:
-            fh.write(CFG % dict({"types": ALLTYPES}, **r))
+            fh.write(CFG % dict({"types": ALLTYPES, "feats": ALLFEATS}, **r))
         casefile = os.path.join(wd, "cases_%s.jsonl" % r["name"])
         cnt = [0]
         with open(casefile, "w") as cf:
@@ -205,14 +215,14 @@ def run(pid, tier, replay=None):
                             and (len(samples) == 0 or o["fields"][0]["src"]["type"] != samples[-1]["fields"][0]["src"]["type"]):
                         samples.append(o)
             sim = r.get("sim")
-            res = vf.tlc("MCFeatures", cfg, rwd, workers=1 if sim else (4 if tier == "quick" else 6), simulate=sim,
+            res = vf.tlc("MCFeatures", cfg, rwd, workers=1 if sim else (2 if tier == "quick" else 6), simulate=sim,
                          depth=r.get("depth"), tseed=vf.seed() if sim else None, case_sink=sink, timeout=2400,
                          coverage=bool(r.get("coverage")))
         return casefile, res, cnt[0]
 
     # quick: the (two) TLC runs go in parallel; thorough: TLC runs one after the other (<= 6 workers) while the driver
     # replays the cases of the previous run
-    pool = concurrent.futures.ThreadPoolExecutor(max_workers=2 if tier == "quick" else 1)
+    pool = concurrent.futures.ThreadPoolExecutor(max_workers=3 if tier == "quick" else 1)
     futures = [(r, pool.submit(tlc_run, r)) for r in RUNS[tier]]
     try:
         for r, fut in futures:
@@ -253,9 +263,8 @@ def run(pid, tier, replay=None):
         return rc
 
     need = set(REQUIRED_FLAGS)
-    if tier == "quick":   # these need two decorations (e.g. file IMPLICIT + enum CLOSED): exhaustive only in the thorough tier
-        need -= {"breaks:implicit-field-closed-enum", "breaks:implicit-field-default", "breaks:map-value-closed-enum-implicit",
-                 "msg:two-required"}
+    if tier == "quick":   # two required fields in one message come from the simulated files only
+        need -= {"msg:two-required"}
     missing = sorted(need - flags)
     if missing:
         raise vf.MachineryError("vacuous: no replayed case expects %s" % missing)
